@@ -116,7 +116,9 @@ class Model(object):
                 if any(q.name == 'IgnoreZeros' for q in sp.params):
                     args[p.name] = list(MTM)
                 elif p.name == 'Weights':
-                    args[p.name] = LIST_DEFAULTS['Weights'][:len(refs.get('InFieldNames', [0, 0]))]
+                    # alt 1: weights of mixed sign (legal: only a zero sum is excluded) push weighted means out of range
+                    ws = LIST_DEFAULTS['Weights'] if self.alt % 2 == 0 else [2, -0.5, 1.5, -0.25]
+                    args[p.name] = ws[:len(refs.get('InFieldNames', [0, 0]))]
                 else:
                     args[p.name] = LIST_DEFAULTS[p.name][:npts]
             elif p.kind == 'bool':
@@ -318,17 +320,18 @@ def harness(ctx, cfg):
         obs.append({'label': 'well-typed model runs (%s)' % out['outcome'], 'kind': 'fact', 'value': False, 'group': 'model-outcome'})
     elif reference_ok:
         for name, sp, args, fz in model.cmds:
-            if sp == 'input':
-                continue
             res = out['results'][name]
             rv, rm = ref[name]
+            if sp == 'input':
+                # a leaf's result is the table column itself - also AFTER the run (no consumer may write into it)
+                sp = LEAF
             if not isinstance(res, D.symnp.ndarray) or res.size != len(rv):
                 obs.append({'label': '%s (%s): result is an array of the input shape' % (name, sp.name), 'kind': 'fact', 'value': False, 'group': 'result-shape ' + sp.name})
                 continue
             cells = res.data.cells() if isinstance(res, D.symnp.MaskedArray) else res.cells()
             masks = res.maskcells() if isinstance(res, D.symnp.MaskedArray) else [z3.BoolVal(False)] * len(cells)
             for i in range(len(cells)):
-                pd, pm = z3.Real('%s.d%d' % (name, i)), z3.Bool('%s.m%d' % (name, i))
+                pd, pm = z3.Real('%s.r.d%d' % (name, i)), z3.Bool('%s.r.m%d' % (name, i))
                 tmpl_bind += [(pd, cells[i]), (pm, masks[i])]
                 obs.append({'label': '%s (%s) cell %d: missing as in the reference evaluation' % (name, sp.name, i), 'kind': 'term', 'template': pm == rm[i],
                             'group': 'graph-mask ' + sp.name})
@@ -352,6 +355,10 @@ def harness(ctx, cfg):
 
 # ------------------------------------------------------------------ validation / replay against the real numpy
 KINDS = {}
+
+
+class LEAF(object):
+    name = 'input'
 
 
 def concrete_inputs(snap, m, fuzzy_of):
@@ -481,8 +488,8 @@ def judge(rec, template=None):
         for i, x in enumerate(rr['data']):
             if isinstance(x, str):
                 return True, 'real result %s cell %d is %s' % (name, i, x)
-            env['%s.d%d' % (name, i)] = Fraction(x)
-            env['%s.m%d' % (name, i)] = bool((rr['mask'] or [False] * len(rr['data']))[i])
+            env['%s.r.d%d' % (name, i)] = Fraction(x)
+            env['%s.r.m%d' % (name, i)] = bool((rr['mask'] or [False] * len(rr['data']))[i])
     try:
         holds = geval(template, env)
     except EvalError as e:
